@@ -4,6 +4,8 @@
 # demo fails with mutant, pinned suite still passes (only the 2 always-failing packages fail). On success
 # stores the change under /verif/seeded/<seed-name>/.
 set -u
+# serialise: only one confirmation may use the scratch worktree at a time
+exec 9>/var/tmp/confirm.lock; flock 9
 src="$1"; name="$2"
 export GOFLAGS=-mod=mod GOPROXY=off GOSUMDB=off GOTOOLCHAIN=local PATH=/opt/veriftools/go1.26.8/bin:$PATH; unset GOWORK
 W=/var/tmp/confirm
